@@ -26,6 +26,7 @@ CONSTANTS
  NodeTeardown = TRUE
  MayVanish = TRUE
  SweepRelays = TRUE
+ E2E = FALSE
  Aead = TRUE
  CheckIdent = TRUE
  AutoTimers = TRUE
